@@ -125,3 +125,209 @@ class ServiceMatches(FnCheck):
             some = z3.Exists([j], z3.And(0 <= j, j < z3.Length(self.texts), self.M(self.texts[j])))
             ex.oblige(st, 'matches_iff_some_scope_matches',
                       truthy(outcome[1], st) == z3.And(z3.Not(self.none_sc.e), some))
+
+
+# ---------------------------------------------------------------------------------------------------------------
+# round trip  from_scope_string(loc.scope_string) == loc  on the real code, over axiomatised urllib.parse
+from pyvc.api import SeqCheck   # noqa: E402
+from pyvc import models   # noqa: E402
+
+Q0 = z3.Function('quote_safe_none', StrS, StrS)          # quote(s, safe='')
+Q1 = z3.Function('quote_default', StrS, StrS)            # quote(s)          (safe='/')
+UQ = z3.Function('unquote', StrS, StrS)
+UEF = z3.Function('urlencode_location', Val, Val, Val, Val, Val, Val, StrS)   # urlencode of {name_i: v_i} (none = key absent)
+UNP = z3.Function('urlunparse_spq', StrS, StrS, StrS, StrS)                   # urlunparse(scheme, None, path, None, query, None)
+SCH, PTH, QRY = (z3.Function(n, StrS, StrS) for n in ('urlsplit_scheme', 'urlsplit_path', 'urlsplit_query'))
+QV = [z3.Function(f'query_value_{e}', StrS, Val) for e in ELEMS]             # dict(parse_qsl(q)).get(name_i)
+LOWER = models.uf('str_lower', StrS, StrS)
+SPLIT = models.uf('str_split', StrS, StrS, SeqVal)
+
+
+def _no(ch, s):
+    return z3.Not(z3.Contains(s, z3.StringVal(ch)))
+
+
+def urllib_axioms():
+    """Assumed contracts of urllib.parse (validated on the real library by the bounded check C16.urllib_axioms [B])."""
+    s, a, p, q = z3.Strings('s!ax a!ax p!ax q!ax')
+    vs = [z3.Const(f'v{i}!ax', Val) for i in range(6)]
+    ax = [z3.ForAll([s], z3.And(UQ(Q0(s)) == s, UQ(Q1(s)) == s)),
+          z3.ForAll([s], z3.And(_no('/', Q0(s)), _no('?', Q0(s)), _no('#', Q0(s)), _no('?', Q1(s)), _no('#', Q1(s)))),
+          z3.ForAll([s], z3.Implies(_no('/', s), _no('/', Q1(s)))),
+          z3.ForAll([s], z3.Implies(z3.Length(s) > 0, z3.Length(Q1(s)) > 0)),
+          z3.ForAll(vs, _no('#', UEF(*vs))),
+          # urlsplit inverts urlunparse for a path without '?' '#' that starts with '/', and a query without '#'
+          z3.ForAll([a, p, q], z3.Implies(z3.And(_no('?', p), _no('#', p), _no('#', q), z3.PrefixOf(z3.StringVal('/'), p),
+                                                 z3.Not(z3.PrefixOf(z3.StringVal('//'), p))),    # '//' would start an authority
+                                          z3.And(SCH(UNP(a, p, q)) == a, PTH(UNP(a, p, q)) == p, QRY(UNP(a, p, q)) == q)))]
+    # parse_qsl(urlencode(d)): exactly the keys with a non-empty string value, with their values
+    for i in range(6):
+        ax.append(z3.ForAll(vs, QV[i](UEF(*vs)) == z3.If(z3.And(Val.is_str(vs[i]), z3.Length(Val.s(vs[i])) > 0), vs[i], Val.none)))
+    ax.append(LOWER(z3.StringVal('sdc.ctxt.loc')) == z3.StringVal('sdc.ctxt.loc'))
+    return ax
+
+
+@register
+class ScopeRoundTrip(SeqCheck):
+    id = 'C16.scope_round_trip'
+    prop = 'C16'
+    targets_list = (f'{LOC}:SdcLocation.scope_string', f'{LOC}:SdcLocation.from_scope_string')
+    inline = (f'{LOC}:SdcLocation.root', f'{LOC}:SdcLocation.__init__')
+    feasibility_ematch_only = True
+    feasibility_timeout_ms = 60
+    doc = ('from_scope_string(loc.scope_string) is the same location, for ALL element values (any unicode text; None and "" '
+           'both mean "absent" and come back as None) and every non-empty root without "/": the real scope_string and the real '
+           'from_scope_string are executed one after the other on a symbolic location; urllib.parse is replaced by its '
+           'assumed contracts (quote / unquote inverse and free of "/?#", urlencode / parse_qsl inverse on non-empty values, '
+           'urlsplit inverts urlunparse, split of "/a/b"). What is proved is the plumbing of the library code for all '
+           'inputs: which keys, which order, which quoting on which side, which path segment; never raises')
+    trusted = ('urllib.parse axioms (quote/unquote, urlencode/parse_qsl, urlunparse/urlsplit), validated by the bounded '
+               'check C16.urllib_axioms on the real library', 'str.split("/") of "/a/b" with "/"-free a, b is ["", a, b]',
+               'str.lower of the scheme constant')
+
+    def script(self, run, ex, st, b):
+        self.me, self.mf = mk_loc(b, 'self')
+        root = Val.s(self.mf['_root'].e)
+        st.assume(_no('/', root))
+        st.assume(z3.Length(root) > 0)       # an empty root yields a path "//...", which urlsplit reads as an authority
+        for a in urllib_axioms():
+            st.assume(a)
+        st.ghost['c:q1'] = ()
+        outs = []
+        for s1, r1 in run(st, self.targets_list[0], self.me, []):
+            if isinstance(r1, Raise):
+                ex.oblige(s1, 'scope_string_never_raises', z3.BoolVal(False), info={'exc': repr(r1.exc)})
+                outs.append((s1, ('exc', r1.exc)))
+                continue
+            cls = V('class', py=(LOC, 'SdcLocation'))
+            for s2, r2 in run(s1, self.targets_list[1], cls, [r1]):
+                if isinstance(r2, Raise):
+                    ex.oblige(s2, 'own_scope_string_is_always_parsed', z3.BoolVal(False), info={'exc': repr(r2.exc)})
+                    outs.append((s2, ('exc', r2.exc)))
+                    continue
+                new = ex.concrete_kind(s2, r2, ('ref',))
+                for e in ELEMS:
+                    orig = self.mf[e].e
+                    want = z3.If(z3.And(Val.is_str(orig), z3.Length(Val.s(orig)) > 0), orig, Val.none)
+                    ex.oblige(s2, f'element_{e}_comes_back', z3.Select(s2.get_arr('f:' + e), new.e) == want)
+                ex.oblige(s2, 'root_comes_back', z3.Select(s2.get_arr('f:_root'), new.e) == self.mf['_root'].e)
+                outs.append((s2, ('ret', r2)))
+        return outs
+
+    def callees(self, ex):
+        def quote(ex_, st, args, kwargs):
+            s = ex_.concrete_kind(st, args[0], ('str',))
+            if s.kind != 'str':
+                raise Unsupported('quote of a non-string')
+            safe = kwargs.get('safe', args[1] if len(args) > 1 else None)
+            if safe is None:
+                r = Q1(s.e)
+                st.ghost['c:q1'] = st.ghost['c:q1'] + (r,)
+                return vstr(r)
+            sv = z3.simplify(safe.e) if safe.kind == 'str' else None
+            if sv is not None and z3.is_string_value(sv) and sv.as_string() == '':
+                return vstr(Q0(s.e))
+            raise Unsupported('quote with another safe set')
+
+        def unquote(ex_, st, args, kwargs):
+            s = ex_.concrete_kind(st, args[0], ('str',))
+            return vstr(UQ(s.e))
+
+        def join(ex_, st, args, kwargs):
+            recv = ex_.concrete_kind(st, vany(st.ghost['c:recv']), ('str',))
+            items = models.concrete_items(ex_, st, args[0])
+            if items is None:
+                raise Unsupported('join of a list of symbolic length')
+            parts = []
+            for i, it in enumerate(items):
+                it = ex_.concrete_kind(st, it, ('str',))
+                if i:
+                    parts.append(recv.e)
+                parts.append(it.e)
+            r = z3.Concat(*parts) if len(parts) > 1 else parts[0]
+            st.ghost['c:loc'] = r
+            return vstr(r)
+
+        def urlencode(ex_, st, args, kwargs):
+            d = ex_.concrete_kind(st, args[0], ('ref',))
+            dk, dv = z3.Select(st.get_arr('DK'), d.e), z3.Select(st.get_arr('DV'), d.e)
+            vals = [z3.If(z3.Select(dk, Val.str(z3.StringVal(e))), z3.Select(dv, Val.str(z3.StringVal(e))), Val.none) for e in ELEMS]
+            # only the six location element names may be keys of the dict
+            k = z3.Const('k!ue', Val)
+            ex_.oblige(st, 'query_holds_only_location_elements', z3.ForAll([k], z3.Implies(
+                z3.Select(dk, k), z3.Or(*[k == Val.str(z3.StringVal(e)) for e in ELEMS]))))
+            return vstr(UEF(*vals))
+
+        def parse_result(ex_, st, args, kwargs):
+            o = st.alloc('ParseResult')
+            for n in ('scheme', 'netloc', 'path', 'params', 'query', 'fragment'):
+                st.write_field(o, n, kwargs.get(n, NONE))
+            return o
+
+        def urlunparse(ex_, st, args, kwargs):
+            o = ex_.concrete_kind(st, args[0], ('ref',))
+            f = lambda n: z3.Select(st.get_arr('f:' + n), o.e)   # noqa: E731
+            ex_.oblige(st, 'scope_has_no_authority_params_fragment', z3.And(*[Val.is_none(f(n)) for n in ('netloc', 'params', 'fragment')]))
+            ex_.oblige(st, 'scope_parts_are_strings', z3.And(*[Val.is_str(f(n)) for n in ('scheme', 'path', 'query')]))
+            return vstr(UNP(Val.s(f('scheme')), Val.s(f('path')), Val.s(f('query'))))
+
+        def urlsplit(ex_, st, args, kwargs):
+            s = ex_.concrete_kind(st, args[0], ('str',))
+            o = st.alloc('SplitResult')
+            st.write_field(o, 'scheme', vstr(SCH(s.e)))
+            st.write_field(o, 'path', vstr(PTH(s.e)))
+            st.write_field(o, 'query', vstr(QRY(s.e)))
+            return [(st.fork(), Raise(ex_.mk_exc('ValueError', 'urlsplit'))), (st, o)] if False else o
+
+        def parse_qsl(ex_, st, args, kwargs):
+            s = ex_.concrete_kind(st, args[0], ('str',))
+            o = st.alloc('QueryPairs')
+            st.write_field(o, '__query__', vstr(s.e))
+            return o
+
+        def mk_dict(ex_, st, args, kwargs):
+            if len(args) != 1:
+                raise Unsupported('dict() with other arguments')
+            src = ex_.concrete_kind(st, args[0], ('ref',))
+            qs = Val.s(z3.Select(st.get_arr('f:__query__'), src.e))
+            d = st.new_dict()
+            dk = z3.K(Val, z3.BoolVal(False))
+            dv = z3.Select(st.get_arr('DV'), d.e)
+            for i, e in enumerate(ELEMS):
+                key = Val.str(z3.StringVal(e))
+                dk = z3.Store(dk, key, z3.Not(Val.is_none(QV[i](qs))))
+                dv = z3.Store(dv, key, QV[i](qs))
+            st.set_arr('DK', z3.Store(st.get_arr('DK'), d.e, dk))
+            st.set_arr('DV', z3.Store(st.get_arr('DV'), d.e, dv))
+            return d
+        return {'urllib.parse.quote': Pure(quote, name='urllib.parse.quote', trusted=True),
+                'urllib.parse.unquote': Pure(unquote, name='urllib.parse.unquote', trusted=True),
+                '*.join': Pure(join, name='str.join over the six quoted elements (concatenation)'),
+                'urllib.parse.urlencode': Pure(urlencode, name='urllib.parse.urlencode', trusted=True),
+                'urllib.parse.ParseResult': Pure(parse_result, name='ParseResult(...)'),
+                'urllib.parse.urlunparse': Pure(urlunparse, name='urllib.parse.urlunparse', trusted=True),
+                'urllib.parse.urlsplit': Pure(urlsplit, name='urllib.parse.urlsplit', trusted=True),
+                'urllib.parse.parse_qsl': Pure(parse_qsl, name='urllib.parse.parse_qsl', trusted=True),
+                'dict': Pure(mk_dict, name='dict(parse_qsl(query)): keys with non-empty values', trusted=True)}
+
+    def hooks(self, ex):
+        chk = self
+
+        class H:
+            tracked_names = ()
+
+            @staticmethod
+            def on_call(ex_, st, fv, keys, args, kwargs, node):
+                if fv.t == 'method':
+                    st.ghost['c:recv'] = st.box(fv.recv)
+                    if fv.name == 'split' and fv.recv.kind == 'str' and args:
+                        # ground instance of: split("/" + a + "/" + b, "/") == ["", a, b] for "/"-free a, b
+                        q1s, loc = st.ghost.get('c:q1', ()), st.ghost.get('c:loc')
+                        if q1s and loc is not None:
+                            a = q1s[-1]
+                            whole = z3.Concat(z3.StringVal('/'), a, z3.StringVal('/'), loc)
+                            parts = z3.Concat(z3.Unit(Val.str(z3.StringVal(''))), z3.Unit(Val.str(a)), z3.Unit(Val.str(loc)))
+                            st.assume(z3.Implies(z3.And(fv.recv.e == whole, _no('/', a), _no('/', loc)),
+                                                 SPLIT(fv.recv.e, z3.StringVal('/')) == parts))
+                return None
+        return H
